@@ -46,6 +46,7 @@ func checkC01(c *Ctx) {
 	ruleR16(c, dv, modes, "R1.6")
 	ruleDispatch(c, dv, "R1.8", true, true)
 	c.importRules(transportRules, []string{"R15.1", "R15.2", "R15.5"}, "R1.9") // a Note Off swallowed or altered on the way to the port leaves the note sounding
+	c.importRules(emulationReachRules, []string{"R8.9"}, "R1.10")              // an emulated key always sees its return to centre (no filter in front of the type switch swallows it)
 	ruleCounterInit(c, dv, "R1.7")                                             // one zeroed holder count per (channel, note): a shared table makes the last-holder test wrong and the Note Off is withheld
 	c.MinCount("R1.1", 8)
 	c.MinCount("R1.2", 8)
@@ -725,6 +726,16 @@ func ruleR14analog(c *Ctx, dv *dev, rule string) {
 
 // caseRegion returns the blocks dominated by the true edge of `analog.MappingType == <value>`.
 func caseRegion(fn *ssa.Function, dv *dev, value string) map[*ssa.BasicBlock]bool {
+	_, region := caseIf(fn, dv, value)
+	return region
+}
+
+// caseIf: the branch `MappingType == value` that guards the case body of the type switch, and the blocks of that body.
+// When the constant is compared more than once (a filter before the switch) the one dominating the most code is the case.
+func caseIf(fn *ssa.Function, dv *dev, value string) (*ssa.If, map[*ssa.BasicBlock]bool) {
+	var best *ssa.If
+	var bestRegion map[*ssa.BasicBlock]bool
+	bestExclusive := false
 	for _, b := range fn.Blocks {
 		if len(b.Instrs) == 0 {
 			continue
@@ -760,9 +771,13 @@ func caseRegion(fn *ssa.Function, dv *dev, value string) map[*ssa.BasicBlock]boo
 				region[x] = true
 			}
 		}
-		return region
+		// a case body is entered only through its own comparison; `a == k || ...` continues in a join block
+		exclusive := len(head.Preds) == 1
+		if best == nil || (exclusive && !bestExclusive) || (exclusive == bestExclusive && len(region) > len(bestRegion)) {
+			best, bestRegion, bestExclusive = ifi, region, exclusive
+		}
 	}
-	return nil
+	return best, bestRegion
 }
 
 func isFieldNamed(v ssa.Value, name string) bool {
